@@ -436,6 +436,17 @@ class EOperation(ETypedElement):
         if exceptions:
             self.eExceptions.extend(exceptions)
 
+    def notifyChanged(self, notif):
+        super().notifyChanged(notif)
+        if notif.feature is EOperation.eParameters:
+            self._parameters_changed()
+
+    def _parameters_changed(self):
+        # the method generated in a dynamic class shows the parameters
+        eclass = self.eContainer()
+        if isinstance(eclass, EClass):
+            eclass._update_operation(self)
+
     def normalized_name(self):
         name = self.name
         if keyword.iskeyword(name):
@@ -458,10 +469,22 @@ class EParameter(ETypedElement):
     def __init__(self, name=None, eType=None, **kwargs):
         super().__init__(name, eType, **kwargs)
 
+    def notifyChanged(self, notif):
+        super().notifyChanged(notif)
+        if notif.feature in (ENamedElement.name, ETypedElement.required,
+                             ETypedElement.eType):
+            eoperation = self.eContainer()
+            if isinstance(eoperation, EOperation):
+                eoperation._parameters_changed()
+
     def to_code(self):
         if self.required:
             return f"{self.name}"
-        default_value = getattr(self.eType, 'default_value', None)
+        try:
+            default_value = getattr(self.eType, 'default_value', None)
+        except Exception:
+            # the type is a proxy that cannot be resolved (yet)
+            default_value = None
         return f"{self.name}={default_value!r}"
 
 
@@ -927,7 +950,27 @@ class EClass(EClassifier):
         # exec(code, namespace)
         code = compile_restricted(eoperation.to_code(), '<inline>', 'exec')
         exec(code, safe_builtins, namespace)
+        namespace[name]._generated_for = eoperation
         setattr(self.python_class, name, namespace[name])
+
+    def _update_operation(self, eoperation):
+        # the parameters of an operation of this class changed (an edit, or
+        # a loader that decodes them after the operation is in place): the
+        # generated method follows, an implementation put in its place stays
+        if getattr(self.python_class, '_staticEClass', False):
+            return
+        name = eoperation.normalized_name()
+        current = self.python_class.__dict__.get(name)
+        if current is not None \
+                and getattr(current, '_generated_for', None) is not eoperation:
+            return
+        try:
+            self.__create_fun(eoperation)
+        except SyntaxError:
+            # no Python signature for the parameters as they are now (an
+            # edit in progress): no method rather than an outdated one
+            if current is not None:
+                delattr(self.python_class, name)
 
     def _update_supertypes(self):
         new_supers = self.__compute_supertypes()
